@@ -7,6 +7,7 @@ import (
 	"context"
 	"crypto/tls"
 	"fmt"
+	"sync"
 	"testing"
 	"testing/synctest"
 	"time"
@@ -57,6 +58,11 @@ func c13ServerConfig(variant string) *dtlsConfig {
 		_, s = vCertPair()
 	case "psk":
 		_, s = vPSKPair(TLS_PSK_WITH_AES_128_GCM_SHA256)
+	case "cert-store":
+		// a server with a session store that knows no session: an offered (unknown) session id
+		// must not change the cookie exchange
+		_, s = vCertPair()
+		s.sessionStore = &c13Store{m: map[string]Session{}}
 	default:
 		panic(variant)
 	}
@@ -64,10 +70,38 @@ func c13ServerConfig(variant string) *dtlsConfig {
 	return s
 }
 
+type c13Store struct {
+	mu sync.Mutex
+	m  map[string]Session
+}
+
+func (s *c13Store) Set(key []byte, v Session) error {
+	s.mu.Lock()
+	defer s.mu.Unlock()
+	s.m[string(key)] = v
+
+	return nil
+}
+
+func (s *c13Store) Get(key []byte) (Session, error) {
+	s.mu.Lock()
+	defer s.mu.Unlock()
+
+	return s.m[string(key)], nil
+}
+
+func (s *c13Store) Del(key []byte) error {
+	s.mu.Lock()
+	defer s.mu.Unlock()
+	delete(s.m, string(key))
+
+	return nil
+}
+
 func c13ClientConfig(variant string) *dtlsConfig {
 	var c *dtlsConfig
 	switch variant {
-	case "cert":
+	case "cert", "cert-store":
 		c, _ = vCertPair()
 	case "psk":
 		c, _ = vPSKPair(TLS_PSK_WITH_AES_128_GCM_SHA256)
@@ -213,7 +247,7 @@ func c13Mutate(ch handshake.MessageClientHello, body string) handshake.MessageCl
 	case "random":
 		m.Random.RandomBytes[3] ^= 0x40
 	case "session":
-		m.SessionID = []byte{1, 2, 3, 4}
+		m.SessionID = bytes.Repeat([]byte{0x5a}, 32)
 	case "suites":
 		if len(m.CipherSuiteIDs) > 1 {
 			m.CipherSuiteIDs = m.CipherSuiteIDs[:len(m.CipherSuiteIDs)-1]
@@ -317,7 +351,7 @@ func TestVerifC13(t *testing.T) {
 	rng := newVRand(vSeed() ^ 0xc13)
 	cookies := []string{"none", "right", "wrong", "stale", "trunc", "extra"}
 	bodies := []string{"same", "version", "random", "session", "suites", "suiteorder", "compression", "ext", "cidext", "srtpext"}
-	for _, variant := range []string{"cert", "psk"} {
+	for _, variant := range []string{"cert", "psk", "cert-store"} {
 		stale := c13StaleCookie(t, variant)
 		var scripts [][]c13Step
 		ch := func(m int, c, b string) c13Step { return c13Step{In: "ch", MSeq: m, Cookie: c, Body: b} }
@@ -337,6 +371,9 @@ func TestVerifC13(t *testing.T) {
 			[]c13Step{ch(0, "none", "same"), {In: "other"}, {In: "other"}, ch(0, "right", "same"), ch(1, "stale", "same")},
 			[]c13Step{ch(0, "none", "suites"), ch(1, "right", "same")},
 			[]c13Step{ch(0, "none", "suites"), ch(1, "right", "suites")},
+			[]c13Step{ch(0, "none", "session"), {In: "timer"}, ch(0, "none", "session"), ch(1, "wrong", "session"), ch(1, "right", "session")},
+			[]c13Step{ch(0, "none", "session"), ch(1, "right", "session")},
+			[]c13Step{ch(0, "none", "session"), ch(1, "right", "same")},
 		)
 		n := 30
 		if vIsThorough() {
